@@ -121,9 +121,12 @@ func (ss *StructureSlot) generateAccessor(sc *StructureClass) {
 
 	slip.CurrentPackage.Define(
 		func(args slip.List) slip.Object {
-			ss.Function = slip.Function{Name: name, Args: args}
-			ss.Self = ss
-			return ss
+			// Every call gets a function object of its own, the slot
+			// description is shared by all of them.
+			f := *ss
+			f.Function = slip.Function{Name: name, Args: args}
+			f.Self = &f
+			return &f
 		},
 		&slip.FuncDoc{
 			Name: name,
